@@ -970,6 +970,8 @@ def pad(a, pad_width, mode="constant", constant_values=0):
         if isinstance(p, int):
             pw.append((p, p))
         else:
+            if len(p) != 2:
+                raise AbstractError("pad_width entry %r is not a (before, after) pair" % (tuple(p),))
             pw.append((_as_int(p[0]), _as_int(p[1])))
     if len(pw) == 1 and A.ndim > 1:
         pw = pw * A.ndim
